@@ -222,7 +222,8 @@ CLAIMED = {
               "does not change the cosine and is 2 pi periodic; the ST4 input row of a jointly rotated spectrum and wind is "
               "the rotated row (and the mirrored row for the mirror image), with bridge lemmas from the list model; the band-integrated saturation and the "
               "cumulative-breaking strength are circular convolutions whose kernels depend on the index difference only "
-              "(|c e^{ia} - c' e^{ib}|^2 = c^2 + c'^2 - 2cc' cos(a-b)), hence commute with the rotation; direction integrals "
+              "(|c e^{ia} - c' e^{ib}|^2 = c^2 + c'^2 - 2cc' cos(a-b)), hence commute with the rotation, and with the mirror image "
+              "because the kernels are even (|wrap(-x)| = |wrap(x)|); direction integrals "
               "(bulk rates, ST6 saturation) are invariant; the stress vector rotates as a vector, so its magnitude is "
               "invariant and its direction shifts by k*360/N mod 360 (negates under mirroring); a solver applied to a "
               "pointwise equal balance function returns the same value. Oracles on the code: fields shift by k bins "
